@@ -219,3 +219,27 @@ func verifC05(n Name) (base []byte, parts [][]byte, b2 []byte) {
 //@   ensures cfgIndexed(r) && sameButIndex(deref(r), old(deref(r)))
 //@   ensures !cfgHasKey(r, key) ==> v == ""
 //@   ensures forall i int :: 0 <= i < len(r.Config) && r.Config[i].Key == key ==> v == string(r.Config[i].Value)
+
+//@ func (r *Result) Clone() (r2 *Result)
+//@   props C02
+//@   requires r != nil
+//@   ensures r2 != nil && fresh(r2) && deref(r) == old(deref(r))
+//@   ensures r2.Iters == r.Iters && r2.fileName == r.fileName && r2.line == r.line && r2.configPos == nil
+//@   ensures r2.Name == r.Name && (len(r2.Name) == 0 || fresh(r2.Name))
+//@   ensures len(r2.Values) == len(r.Values) && (len(r2.Values) == 0 || fresh(r2.Values))
+//@   ensures forall i int :: 0 <= i < len(r.Values) ==> r2.Values[i] == r.Values[i]
+//@   ensures len(r2.Config) == len(r.Config) && (len(r2.Config) == 0 || fresh(r2.Config))
+//@   ensures forall i int :: 0 <= i < len(r.Config) ==> r2.Config[i].Key == r.Config[i].Key && r2.Config[i].File == r.Config[i].File
+//@   ensures forall i int :: 0 <= i < len(r.Config) ==> r2.Config[i].Value == r.Config[i].Value
+//@   ensures forall i int :: 0 <= i < len(r.Config) ==> (len(r2.Config[i].Value) == 0 || fresh(r2.Config[i].Value))
+//@   loop 1:
+//@     invariant 0 <= idx() <= len(r.Config) && unchanged() && r2 != nil && fresh(r2) && deref(r) == old(deref(r))
+//@     invariant r2.Iters == r.Iters && r2.fileName == r.fileName && r2.line == r.line && r2.configPos == nil
+//@     invariant r2.Name == r.Name && (len(r2.Name) == 0 || fresh(r2.Name))
+//@     invariant len(r2.Values) == len(r.Values) && (len(r2.Values) == 0 || fresh(r2.Values))
+//@     invariant forall i int :: 0 <= i < len(r.Values) ==> r2.Values[i] == r.Values[i]
+//@     invariant len(r2.Config) == len(r.Config) && fresh(r2.Config) && cap(r2.Config) == len(r.Config)
+//@     invariant forall i int :: 0 <= i < idx() ==> r2.Config[i].Key == r.Config[i].Key && r2.Config[i].File == r.Config[i].File
+//@     invariant forall i int :: 0 <= i < idx() ==> r2.Config[i].Value == r.Config[i].Value
+//@     invariant forall i int :: 0 <= i < idx() ==> (len(r2.Config[i].Value) == 0 || fresh(r2.Config[i].Value))
+//@     decreases len(r.Config) - idx()
